@@ -780,6 +780,14 @@ pub mod core_m {
                 r is Err ==> *final(w) == *old(w) && r->Err_0 is WouldBlock, // ASSUMED: not poisoned (as for write)
         { unimplemented!() }
     }
+    /// X5: `Default::default()` for the model lock and the app, and the user's
+    /// `WithContext::new_with_context` (user code; it only stores specialised contexts)
+    #[verifier::external_body]
+    pub fn new_model_lock<T>() -> (r: RwLock<T>) { unimplemented!() }
+    #[verifier::external_body]
+    pub fn default_app<A: App>() -> (r: A) { unimplemented!() }
+    #[verifier::external_body]
+    pub fn new_capabilities<A: App>(context: ProtoContext<A::Effect, A::Event>) -> (r: A::Capabilities) { unimplemented!() }
     /// `drop(guard)` (rule X4: std::mem::drop of the write guard releases the lock)
     #[verifier::external_body]
     pub fn drop_write_guard<T>(Tracked(w): Tracked<&mut World>, g: RwLockWriteGuard<T>)
@@ -848,6 +856,26 @@ pub mod core_m {
 //@rule X2.vis 1 s/^pub\(crate\) struct/pub struct/
 //@rule X2.vis 1 s/\n(\s+)context:/\n\1pub context:/
 //@end
+
+    impl<Eff, Ev> ProtoContext<Eff, Ev> {
+//@extract id=ProtoContext::new file=crux_core/src/capability/mod.rs within="impl<Eff, Ev> ProtoContext<Eff, Ev>" item="fn new" props=C01
+//@expect pub(crate) fn new( shell_channel: Sender<Eff>, app_channel: Sender<Ev>, spawner: executor::Spawner, ) -> Self
+//@sig pub fn new(shell_channel: Sender<Eff>, app_channel: Sender<Ev>, spawner: Spawner) -> (r: Self)
+//@contract
+            ensures
+                r.shell_channel == shell_channel && r.app_channel == app_channel && r.spawner == spawner, // [C01/ProtoContext::new/keeps-the-three-ends-it-is-given]
+//@end
+    }
+
+    impl<Effect, Event> CommandSpawner<Effect, Event> {
+//@extract id=CommandSpawner::new file=crux_core/src/capability/mod.rs within="impl<Effect, Event> CommandSpawner<Effect, Event>" item="fn new" props=C01
+//@expect pub(crate) fn new(context: ProtoContext<Effect, Event>) -> Self
+//@sig pub fn new(context: ProtoContext<Effect, Event>) -> (r: Self)
+//@contract
+            ensures
+                r.context == context, // [C01/CommandSpawner::new/forwards-into-the-context-it-is-given]
+//@end
+    }
 
     impl<Effect, Event> CommandSpawner<Effect, Event> {
         /// the forwarder's two channels are the core's own effect and event queues and its
@@ -1003,6 +1031,21 @@ pub mod core_m {
         }
         /// between calls no task is being polled (sequential reading; see QueuingExecutor::idle)
         pub closed spec fn idle(&self) -> bool { self.executor.idle() }
+
+//@extract id=Core::new file=crux_core/src/core/mod.rs within="impl<A> Core<A>" item="fn new" props=C01+C03
+//@expect pub fn new() -> Self where A::Capabilities: WithContext<A::Event, A::Effect>,
+//@sig pub fn new() -> (r: Self) where A::Effect: 'static, A::Event: 'static,
+//@contract
+            ensures
+                r.wf(), // [C01+C03/Core::new/the-receivers-the-forwarder-and-the-executor-are-wired-to-the-cores-own-four-queues]
+                r.idle(), // [C01/Core::new/starts-with-no-task]
+//@rule X6.channel-role 1 s/let \(request_sender, request_receiver\) = capability::channel\(\);/let (request_sender, request_receiver) = channel::channel(Ghost(Role::Effects));/
+//@rule X6.channel-role 1 s/let \(event_sender, event_receiver\) = capability::channel\(\);/let (event_sender, event_receiver) = channel::channel(Ghost(Role::Events));/
+//@rule X11.module-path 1 s/capability::executor_and_spawner\(\)/executor_and_spawner()/
+//@rule X5.user-types 1 s/model: Default::default\(\),/model: new_model_lock(),/
+//@rule X5.user-types 1 s/app: Default::default\(\),/app: default_app(),/
+//@rule X5.user-types 1 s/<<A as App>::Capabilities>::new_with_context\(proto_context\)/new_capabilities::<A>(proto_context)/
+//@end
 
 //@extract id=Core::process_event file=crux_core/src/core/mod.rs within="impl<A> Core<A>" item="fn process_event" props=C01+C03
 //@expect pub fn process_event(&self, event: A::Event) -> Vec<A::Effect>
